@@ -170,7 +170,8 @@ def pearsonIdx (w : List α) : α :=
   let vy := n * syy - sq sy
   if nat 0 < vx && nat 0 < vy then (n * sxy - sx * sy) / Transc.sqrt (vx * vy) else nat 0
 
-def cti (N : Nat) (xs : List α) : Option α := some (pearsonIdx (lastN N xs))
+def cti (N : Nat) (xs : List α) : Option α :=
+  if xs.length < N then none else some (pearsonIdx (lastN N xs))
 
 def sgn0 (d : α) : α := if nat 0 < d then nat 1 else if d < nat 0 then -(nat 1) else nat 0
 
